@@ -11,33 +11,33 @@ BASELINE_CMD = ('cd /repo && /venv/bin/python -m pytest -ra -q -p no:cacheprovid
                 '--continue-on-collection-errors')
 
 P = {
-    'C01': ('layout / binding symmetry of parser and composer (abstract interpretation of the DSL), length links (affine, by window, tabulated), vector item-kind agreement, tabulated name=value and TXT composers, equality over the composed state',
+    'C01': ('layout / binding symmetry of parser and composer (abstract interpretation of the DSL), length links (affine, by window, tabulated), vector item-kind agreement, tabulated name=value and TXT composers, equality over the composed state, SCSV fold tabulated through the class defaults, small codecs evaluated against the wire format',
             'Decides the reader/writer-agreement clause of the round trip for all field values: same element sequence, widths, byte order, '
             'text codecs, nesting, optional branches, repetition; every length field the parser uses is derived by the composer from the '
             'size of what it writes (a stored or cached number is a finding); attribute binding on both sides; the SSL 2.0 header by '
             'tabulation; vector parameter vs vector composer; exhaustiveness of directions and registries; and that every parsable class '
-            'compares by value over all the state its composer writes. Value-level equality of converters is not decided.'),
-    'C02': ('exception-escape analysis over the parse-reachable call graph, converter / validator discipline of constructed objects, per-call-site bounds of datetime conversions, tabulated flag conversion, decoded-document shape, data-table shape',
-            'Decides that no undocumented exception escapes through explicit raises, unconverted converter errors (repository and library '
+            'compares by value over all the state its composer writes; a composer adds no item the object does not hold; the signalling cipher suites survive the fold for every combination. Value-level equality of converters is not decided.'),
+    'C02': ('exception-escape analysis over the parse-reachable call graph, converter / validator discipline of constructed objects, per-call-site bounds of datetime conversions, tabulated flag conversion, value-constraining validators, decoded-document shape, data-table shape',
+            'Decides that no undocumented exception escapes through explicit raises, unconverted converter errors and value-constraining attrs validators (repository and library '
             'converters, by argument kind), validators that do not accept what the parse primitive produces, undefined parser keys, risky '
             'operations on input-derived values, lazily decoded ASN.1, JSON documents of an unexpected shape, absent directives or nullable '
             'data-table columns, on any path from a parse entry point. TypeError from wrong argument types deep inside library internals '
             'is not decided.'),
-    'C03': ('entry-point contract, input ownership, return-length forms, size-sign intervals, frame containment, nested-length use, sized-array and declared windows, SSL 2.0 length tabulated (AST / paths / DSL IR)',
+    'C03': ('entry-point contract, input ownership, return-length forms, size-sign intervals, frame containment, nested-length use, sized-array and declared windows, SSL 2.0 length tabulated, entry points and parse_parsable evaluated from their own statements (AST / paths / DSL IR)',
             'Decides the shape of the three entry points, that no parser mutates the caller buffer, that reported lengths have a sound form '
             '(library re-encodings only as load(input).dump()), that sizes handed to primitives cannot be negative, that framing units and '
             'sized arrays parse inside the declared length, that the length a nested parse reports is used, and the SSL 2.0 RECORD-LENGTH '
             'for every header value.'),
-    'C04': ('guard / payload agreement at every NotEnoughData site, completeness gates on every path, header constants, propagation of NotEnoughData through handlers, LDAP short-input pattern, SSL 2.0 length tabulated',
+    'C04': ('guard / payload agreement at every NotEnoughData site, completeness gates on every path, header constants, propagation of NotEnoughData through handlers, LDAP short-input pattern (bridge evaluated on a model of the library), SSL 2.0 length tabulated, consumed length of framing units',
             'Decides that every missing-byte count is needed-minus-available under a strict guard, that every path of a framing unit that '
             'returns a frame passes a completeness gate on the declared length, that header constants do not exceed the minimal frame, that '
             'no handler on a binary path swallows NotEnoughData, that the LDAP bridge recognises the decoder\'s short-input message for '
-            'every byte count, and the SSL 2.0 length arithmetic. The reader-loop induction over fragmentations is an argument, not '
+            'every byte count, the SSL 2.0 length arithmetic, and that the length a framing unit reports is the number of bytes it occupied. The reader-loop induction over fragmentations is an argument, not '
             'machine checked.'),
-    'C05': ('parse-range within compose-domain on the DSL IR, zone normalisation, SCSV fold/unfold, None-preserving converters, tabulated name=value / TXT / SPF network composers, URL projection, composer purity',
+    'C05': ('parse-range within compose-domain on the DSL IR, zone normalisation, SCSV fold/unfold, None-preserving converters, tabulated name=value / TXT / SPF network composers, URL projection, composer purity, timestamp and flag primitives tabulated',
             'Decides structural necessary conditions of canonical-form stability: everything the parser accepts can be composed; absent '
             'optional components stay absent; empty and absent values are written differently; URLs are rebuilt from all parts; TXT data '
-            'is chunked without loss; compose leaves the object as it was. Idempotence itself is value level.'),
+            'is chunked without loss; compose leaves the object as it was; a timestamp that is accepted is written back as the same bytes. Idempotence itself is value level.'),
     'C06': ('extracted parser and composer layouts compared with RFC layouts transcribed independently (sa/specs/tls.json), SSL 2.0 header tabulated over all header bytes on both sides, variant order, rejection table, timestamp primitives tabulated',
             'Decides for every supported SSL/TLS structure that both extracted layouts equal the RFC layout (order, widths, endianness, exact '
             'vector floor/ceiling and prefix width, length fields computed from the written data, attribute and registry bindings), that '
@@ -45,39 +45,41 @@ P = {
             'specification tells them to, and the timestamp primitives behind gmt_unix_time and SCTs.'),
     'C07': ('layouts vs sa/specs/ssh.json, tabulated padding arithmetic, mpint pipeline tabulated against RFC 4251, software-version, banner terminator and name-list scanners tabulated from their own statements, rejection table, timestamp primitives',
             'Decides SSH layouts against the RFC tables, the padding rule for all payload lengths, mpint encoding for boundary bit lengths at '
-            'any offset (thorough: every bit length up to 4129), banner token and terminator, name-list splitting, certificate validity '
-            'timestamps; canonical form of negative mpints is outside the quantifier.'),
-    'C08': ('layouts vs sa/specs/dns.json, key tag tabulated against RFC 4034 Appendix B, RSA exponent length form and modulus width, per-algorithm key sizes, TXT chunking, complete consumption of key bytes, shared integer / timestamp / flag tabulations',
+            'any offset (thorough: every bit length up to 4129), banner grammar (version, software, comment, terminator, 255 byte limit) evaluated on a table of identification lines, name-list splitting, certificate validity '
+            'timestamps, rejections against the specification table; canonical form of negative mpints is outside the quantifier.'),
+    'C08': ('layouts vs sa/specs/dns.json, key tag tabulated against RFC 4034 Appendix B, RSA exponent length form and modulus width, per-algorithm key sizes, TXT chunking, complete consumption of key bytes, key material per algorithm evaluated, shared integer / timestamp / flag tabulations',
             'Decides DNSSEC RDATA layouts and per-algorithm key sizes against the RFC tables, the key tag over RDATA samples on both sides of '
             'every carry boundary (even and odd lengths), the RFC 3110 exponent length forms and modulus width, that no key bytes are left '
             'unread, TXT character-strings, and the primitives behind RRSIG timestamps and DNSKEY flags.'),
-    'C09': ('layouts / registries / bindings vs sa/specs/opp.json, return-class fidelity, tag discrimination (LDAP request name included), NUL-terminated string primitive tabulated, rejection table',
+    'C09': ('layouts / registries / bindings vs sa/specs/opp.json, return-class fidelity, tag discrimination (LDAP request name included), NUL-terminated string primitive tabulated, rejection table, LDAP bridge evaluated, no class level container in parse results, 3 byte integers tabulated with the real struct',
             'Decides MySQL/RDP/OpenVPN/PostgreSQL layouts and byte orders, which registry each flag field is decoded through, LDAP schema '
             'tables, that a _parse returns its own class, that every message class checks the tag (or request name) it read, and the '
-            'string<NUL> primitive on empty / offset / unterminated inputs.'),
-    'C10': ('alias-freeness of all enum tables, equality-search shape of decoders, width agreement, preserve-or-reject, GREASE decision tabulated over all codes, strict decoding, variant order',
+            'string<NUL> primitive on empty / offset / unterminated inputs, that no mutable object created at class or module level becomes part of a '
+            'parsed message, and the 3 byte length fields for every boundary value.'),
+    'C10': ('alias-freeness of all enum tables, equality-search shape of decoders, width agreement, preserve-or-reject, GREASE decision tabulated over all codes, strict decoding, variant order, exact name matching of string registries, integer widths tabulated',
             'Discharges the whole code space without enumeration: decoding is an equality search over an alias-free table with width-matched '
             'fallback, GREASE classification equals RFC 8701 for all 256 / 65536 codes, wire text is decoded strictly, no variant shadows '
-            'the ones behind it. Contents of the dependency tables being the IANA values is decided only for the registries in sa/specs.'),
+            'the ones behind it, a name index is keyed and queried by the exact wire name, unsigned decoding of every width. Contents of the dependency tables being the IANA values is decided only for the registries in sa/specs.'),
     'C11': ('struct format table, per-byte-order branch evaluation, narrowing and masking rules, who-may-call rule for local-time APIs, flag / timestamp primitives and mpint pipelines tabulated',
             'Decides the primitive-level clauses; flags, timestamps (4 and 8 bytes, seconds and milliseconds, any UTC offset, values beyond '
             '2^32, the sentinel) and SSH / fixed-length mpints are tabulated against their definitions, including refusal instead of '
             'truncation and no truncating mask in front of a width-limited write. Exactness of struct itself is trusted.'),
-    'C12': ('typestate / ownership rules on ArrayBase: check-before-mutate, bound check shape, field ownership, slice kinds, prefix source, atomic bulk edits, item-size agreement, protocol bounds',
+    'C12': ('typestate / ownership rules on ArrayBase: check-before-mutate, bound check shape, field ownership, slice kinds, prefix source, atomic bulk edits, item-size agreement, protocol bounds, edit interface tabulated as a transition system, construction tabulated',
             'With R1-R8 the invariant "_items_size == encoded body size, within the protocol\'s bounds" is inductive over the sequence '
-            'interface, and a refused edit changes nothing.'),
-    'C13': ('effect analysis of observers by abstract interpretation, shared mutable defaults (with the vector-constructor premise), input-alias taint, returned internals',
+            'interface, and a refused edit changes nothing; R9 decides the same by running every edit from every small state; R10 that a new vector '
+            'owns its item list.'),
+    'C13': ('effect analysis of observers by abstract interpretation, shared mutable defaults (with the vector-constructor premise), input-alias taint, returned internals, provenance of class / module level containers and cached objects, in-place effects through aliases and helpers',
             'Decides purity of every observer (writes to self / class state; a sufficient condition; swap-and-restore accepted only on a '
             'class named in the source), absence of shared mutable attrs defaults, of aliasing of the input buffer, and of observers '
-            'handing out the object\'s own mutable containers.'),
-    'C14': ('ordered-iteration, no-shared-state, total-dispatch, literal-template, foreign-object, strict-codec and serialiser-purity rules; timedelta and hex rendering tabulated',
+            'handing out the object\'s own mutable containers, and that nothing mutable kept at class or module level is handed out in a parse result.'),
+    'C14': ('ordered-iteration, no-shared-state, total-dispatch, literal-template, foreign-object, strict-codec and serialiser-purity rules; timedelta and hex rendering tabulated; ordered mapping fields',
             'Decides the determinism and dispatch clauses and that rendering stores nothing into the rendered object; success for every '
             'value of every type is not decided.'),
-    'C15': ('ja3 tabulated over abstract hellos against the published definition (syntactic fallback), def-use agreement with compose, GREASE decision tabulated, no class state and no extra rejections between the wire and ja3',
+    'C15': ('ja3 tabulated over abstract hellos against the published definition (syntactic fallback), def-use agreement with compose, GREASE decision tabulated, no class state and no extra rejections between the wire and ja3, extension model following the class fields and properties, composer adds no items',
             'Decides the JA3 string for every shape of hello the tabulation covers, that exactly the RFC 8701 values are ignored, that nothing '
             'on the way from bytes to ja3 keeps state between messages, and that extension parsers do not silently drop out of the '
             'sections by rejecting allowed content; equality with a reference implementation on bytes is value level.'),
-    'C16': ('hassh text and digest rendering tabulated over name-list shapes, fingerprint code tabulated, key_bytes exhaustiveness, key blob layouts vs specification, name-list scanner tabulated',
+    'C16': ('hassh text and digest rendering tabulated over name-list shapes, fingerprint code tabulated, key_bytes exhaustiveness, key blob layouts vs specification, name-list scanner tabulated, validity timestamps tabulated, nested key blobs consumed completely',
             'Decides HASSH (text, separators, digest rendering incl. leading zero nibbles) on all shapes of the four lists including empty '
             'ones, the fingerprint computations, and that the hashed blob is the specified encoding; digest implementations are trusted.'),
     'C17': ('partial evaluation of all six comparison operators over the finite version table; order axioms on the decision matrix; foreign-operand guard',
@@ -88,7 +90,7 @@ P = {
             'Decides letter case of directive, mechanism and modifier names, optional whitespace around separators and around header field '
             'values, empty list elements, trailing spaces of SPF records, by-name matching, unknown directives, absent / empty values and '
             'the field terminator; invariance over the full grammar of every header is not decided (DESIGN 11.11).'),
-    'C19': ('recursion / containment graph acyclicity (registries that cannot be evaluated are over-approximated), declared-count guards and idle paths, loop progress, no rescans, no state between parses, no element-wise searches or walks over the accumulating list in parse loops',
+    'C19': ('recursion / containment graph acyclicity (registries that cannot be evaluated are over-approximated), declared-count guards and idle paths, loop progress, no rescans, no state between parses, no element-wise searches or walks over the accumulating list in parse loops, separator scan and parser construction as step counts independent of the surrounding input',
             'Decides structural clauses bounding recursion depth and iteration counts and that the cost of a parse does not depend on '
             'earlier parses; the global linear step bound is not proven.'),
 }
